@@ -413,7 +413,115 @@ func (w *world) diskRoundTrip() {
 	}
 	w.step++
 	w.checkAll("disk-reload") // restored index = projection = model (which did not move); callbacks installed, WalletON
+	if !w.failed {
+		w.diskCorrupt(before)
+	}
 	os.RemoveAll(common.GocoinHomeDir + wallet.BALANCES_SUBDIR)
+}
+
+// diskCorrupt: the cache SaveBalances wrote is damaged (one file cut short or missing - a crash while it was written, a full
+// disk) and LoadBalances runs on it, both the way the client does at start-up (every map still nil: wallet.VerifResetMaps
+// is not available, so this variant is reached through a nil-record cut) and after a Disable (maps empty, not nil).
+// C17's predicate at observe_at: if the index is enabled afterwards it must be the projection (= `good`, the index before);
+// the acceptable outcomes are therefore "error returned, index off and empty" or "enabled with exactly the right index".
+// The model side: Model/BalancesDisk.loadPairs on the same bytes must agree on accept/refuse (oracle op dload).
+func (w *world) diskCorrupt(good map[string]*balDump) {
+	root := common.GocoinHomeDir + wallet.BALANCES_SUBDIR
+	ents, _ := os.ReadDir(root)
+	if len(ents) != 1 {
+		return
+	}
+	dir := root + string(os.PathSeparator) + ents[0].Name() + string(os.PathSeparator)
+	// the largest file: the one with records
+	best, bestLen := -1, 1
+	for idx := 0; idx < wallet.IDX_CNT; idx++ {
+		if st, e := os.Stat(dir + wallet.IDX2SYMB[idx]); e == nil && int(st.Size()) > bestLen {
+			best, bestLen = idx, int(st.Size())
+		}
+	}
+	if best < 0 {
+		r.Hit("disk:corrupt:no-records-to-cut")
+		return
+	}
+	fn := dir + wallet.IDX2SYMB[best]
+	orig, _ := os.ReadFile(fn)
+	defer func() {
+		// back to a live, correct index for the rest of the world
+		if common.Get(&common.WalletON) {
+			wallet.Disable()
+		}
+		os.WriteFile(fn, orig, 0660)
+		wallet.LAST_SAVED_FNAME = ""
+		if er := wallet.LoadBalances(); er != nil {
+			w.propFail("disk-reload", "LoadBalances failed on the restored cache: "+er.Error(), nil)
+		}
+	}()
+	cuts := []int{len(orig) - 1, len(orig) - 5, len(orig) / 2, 9, 1, 0, -1} // -1 = file missing
+	if w.corruptDone {
+		cuts = []int{len(orig) - 1 - w.rng.Intn(12), w.rng.Intn(len(orig)), -1}
+	}
+	w.corruptDone = true
+	for _, n := range cuts {
+		if n < -1 || n >= len(orig) {
+			continue
+		}
+		wallet.Disable()
+		var cut []byte
+		if n < 0 {
+			os.Remove(fn)
+		} else {
+			cut = orig[:n]
+			os.WriteFile(fn, cut, 0660)
+		}
+		wallet.LAST_SAVED_FNAME = ""
+		var er error
+		pan := ""
+		func() {
+			defer func() {
+				if x := recover(); x != nil {
+					pan = fmt.Sprint(x)
+				}
+			}()
+			er = wallet.LoadBalances()
+		}()
+		on := common.Get(&common.WalletON)
+		what := fmt.Sprintf("balance cache file %s (%d bytes) cut to %d bytes (-1 = removed), LoadBalances: error %v, WalletON %v", wallet.IDX2SYMB[best], len(orig), n, er, on)
+		r.Eval("disk-corrupt", fmt.Sprint(w.name, w.step, best, n))
+		rep := map[string]interface{}{"file": wallet.IDX2SYMB[best], "bytes": vlib.Hex(orig), "cut": n}
+		// model: load_map on the same bytes refuses exactly when the real code does
+		if n >= 0 {
+			mrep := w.ask(fmt.Sprintf("dload %d %d %s", w.useMap, best, vlib.Hex(cut)))
+			mRefuses := strings.HasPrefix(mrep, "refuse")
+			if mRefuses != (er != nil) && pan == "" {
+				w.tieFail("disk-corrupt-model", what+"; the model's load_map answers "+cutStr(mrep, 60), rep)
+			} else {
+				r.TieOK()
+			}
+		}
+		switch {
+		case pan != "":
+			w.propFail("cache-corrupt-load-panics", what+": panic "+pan, rep)
+		case er == nil || on:
+			after, bpan := realIndex()
+			if bpan != "" {
+				w.propFail("cache-corrupt-enables-wrong-index", what+": the index is enabled and wallet.Browse panics on it: "+bpan, rep)
+			} else if d := sameDump(good, after); d != "" {
+				w.propFail("cache-corrupt-enables-wrong-index", what+": the index is enabled but is not the projection of the UTXO set: "+d, rep)
+			} else {
+				r.Hit("disk:corrupt:loaded-and-correct")
+			}
+		default:
+			after, _ := realIndex()
+			if len(after) != 0 {
+				w.propFail("cache-corrupt-leaves-records", what+": the load was refused but the (disabled) index still holds records", rep)
+			} else {
+				r.Hit("disk:corrupt:refused")
+			}
+		}
+		if w.failed {
+			return
+		}
+	}
 }
 
 // parseDiskFile splits a file written by save_map into its records (own reader of the layout: CompactSize count, then
@@ -773,4 +881,11 @@ func runStatic(name string, seed uint64, mn uint64, um uint32, compr bool, stopA
 		}
 	}
 	return w
+}
+
+func cutStr(s string, n int) string {
+	if len(s) > n {
+		return s[:n]
+	}
+	return s
 }
